@@ -365,7 +365,7 @@ def generate(seed, tier):
             ib = None
             if q["_outer_vars"] and g.chance(0.4):
                 v = g.choice(q["_outer_vars"])
-                ib = {v: g.pick(SUBS_C) if v != "p" else g.pick(PREDS)}
+                ib = {v: g.pick(SUBS_C if g.chance(0.5) else OBJS_C) if v != "p" else g.pick(PREDS)}
             ops.append({"uid": uid, "k": "open", "r": nr, "q": qi, "on": g.choice(["memory", "memory", "memory", "other", "simple", "auditable"]), "ib": ib})
             if g.chance(0.15):
                 ops[-1]["base"] = g.choice(["http://one.example/", "http://two.example/dir/"])
@@ -381,7 +381,7 @@ def generate(seed, tier):
             ops.append({"uid": uid, "k": "initns", "q": qi, "order": g.choice([[0, 1], [1, 0], [0, 1, 0]])})
         elif kind == "initb" and q["_outer_vars"]:
             v = g.choice(q["_outer_vars"])
-            ops.append({"uid": uid, "k": "initb", "q": qi, "var": v, "val": g.pick(SUBS_C) if v != "p" else g.pick(PREDS)})
+            ops.append({"uid": uid, "k": "initb", "q": qi, "var": v, "val": g.pick(SUBS_C if g.chance(0.4) else OBJS_C) if v != "p" else g.pick(PREDS)})
     return {"property": ID, "config": cfg, "ops": ops}
 
 
